@@ -172,7 +172,7 @@ Theorem ps_text_codec_id v : ps_txt_ok v -> ps_text_codec v = Some v.
 Proof.
   intros Hok. destruct (ps_value_roundtrip v Hok) as (W & c & E & Q).
   unfold ps_text_codec, ps_text_of. rewrite ps_src_mode_match.
-  rewrite (cw_values_roundtrip (ps_to_cw v) 1 W), E, Q. reflexivity.
+  rewrite (cw_values_roundtrip (ps_to_cw v) 0 W), E, Q. reflexivity.
 Qed.
 
 Lemma ps_text_key_id k : ps_text_key k = Some k.
